@@ -152,33 +152,49 @@ func MakeSynth(seed uint64) (*SynthSpec, *descriptorpb.FileDescriptorProto) {
 	}
 	fdp.EnumType = []*descriptorpb.EnumDescriptorProto{en}
 
-	resolvedPresence := func(c featureChoice) descriptorpb.FeatureSet_FieldPresence {
+	// over lays a setting on what is inherited (file <- enclosing messages <- message <- field)
+	over := func(inherited, c featureChoice) featureChoice {
 		if c.presence != 0 {
-			return c.presence
+			inherited.presence = c.presence
 		}
-		if file.presence != 0 {
-			return file.presence
-		}
-		return descriptorpb.FeatureSet_EXPLICIT
-	}
-	resolvedPacked := func(c featureChoice) bool {
 		if c.enc != 0 {
-			return c.enc == descriptorpb.FeatureSet_PACKED
+			inherited.enc = c.enc
 		}
-		if file.enc != 0 {
-			return file.enc == descriptorpb.FeatureSet_PACKED
-		}
-		return true
-	}
-	resolvedDelim := func(c featureChoice) bool {
 		if c.msgenc != 0 {
-			return c.msgenc == descriptorpb.FeatureSet_DELIMITED
+			inherited.msgenc = c.msgenc
 		}
-		return file.msgenc == descriptorpb.FeatureSet_DELIMITED
+		return inherited
+	}
+	fileEff := over(featureChoice{presence: descriptorpb.FeatureSet_EXPLICIT, enc: descriptorpb.FeatureSet_PACKED, msgenc: descriptorpb.FeatureSet_LENGTH_PREFIXED}, file)
+	var msgEff featureChoice // what the fields of the message being built inherit
+	resolvedPresence := func(c featureChoice) descriptorpb.FeatureSet_FieldPresence { return over(msgEff, c).presence }
+	resolvedPacked := func(c featureChoice) bool { return over(msgEff, c).enc == descriptorpb.FeatureSet_PACKED }
+	resolvedDelim := func(c featureChoice) bool { return over(msgEff, c).msgenc == descriptorpb.FeatureSet_DELIMITED }
+	// a message may carry settings of its own (protoc restricts these features to files and fields; the
+	// runtime's builders accept them on messages and resolve along the file-message-field chain, and
+	// hand-built or dynamically loaded schemas can carry them)
+	msgChoice := func() featureChoice {
+		var c featureChoice
+		if !r.Chance(1, 4) {
+			return c
+		}
+		switch r.Intn(3) {
+		case 0:
+			c.presence = []descriptorpb.FeatureSet_FieldPresence{descriptorpb.FeatureSet_EXPLICIT, descriptorpb.FeatureSet_IMPLICIT}[r.Intn(2)]
+		case 1:
+			c.enc = []descriptorpb.FeatureSet_RepeatedFieldEncoding{descriptorpb.FeatureSet_PACKED, descriptorpb.FeatureSet_EXPANDED}[r.Intn(2)]
+		default:
+			c.msgenc = []descriptorpb.FeatureSet_MessageEncoding{descriptorpb.FeatureSet_LENGTH_PREFIXED, descriptorpb.FeatureSet_DELIMITED}[r.Intn(2)]
+		}
+		return c
 	}
 
-	build := func(scope, msgName string, nScalar, nRep, nMsg int, withOneof, withMaps bool, subType string) *descriptorpb.DescriptorProto {
+	build := func(inherited, own featureChoice, scope, msgName string, nScalar, nRep, nMsg int, withOneof, withMaps bool, subType string) *descriptorpb.DescriptorProto {
 		md := &descriptorpb.DescriptorProto{Name: proto.String(msgName)}
+		if fs := own.set(); fs != nil {
+			md.Options = &descriptorpb.MessageOptions{Features: fs}
+		}
+		msgEff = over(inherited, own)
 		full := protoreflect.FullName(pkg + "." + scope + msgName)
 		num := int32(0)
 		add := func(name string, t descriptorpb.FieldDescriptorProto_Type, rep bool, typeName string, c featureChoice, oneof int) *descriptorpb.FieldDescriptorProto {
@@ -312,8 +328,15 @@ func MakeSynth(seed uint64) (*SynthSpec, *descriptorpb.FileDescriptorProto) {
 	if r.Chance(1, 2) {
 		subScope, subRef = "Main.", "Main.Sub"
 	}
-	sub := build(subScope, "Sub", r.Range(2, 5), r.Range(0, 2), 0, false, false, "")
-	main := build("", "Main", r.Range(5, 14), r.Range(1, 5), r.Range(1, 3), true, r.Chance(2, 3), subRef)
+	mainOwn, subOwn := msgChoice(), msgChoice()
+	mainEff := over(fileEff, mainOwn)
+	subInherits := fileEff
+	if subScope != "" {
+		subInherits = mainEff
+	}
+	spec.FileDecl += "; message Main:" + mainOwn.String() + "; message " + subRef + ":" + subOwn.String()
+	sub := build(subInherits, subOwn, subScope, "Sub", r.Range(2, 5), r.Range(0, 2), 0, false, false, "")
+	main := build(fileEff, mainOwn, "", "Main", r.Range(5, 14), r.Range(1, 5), r.Range(1, 3), true, r.Chance(2, 3), subRef)
 	if subScope != "" {
 		main.NestedType = append(main.NestedType, sub)
 		fdp.MessageType = []*descriptorpb.DescriptorProto{main}
